@@ -165,7 +165,7 @@ def run_check(prop, tier, seed):
                 print(f"VIOLATION property={prop} replay={fn}")
                 print(f"  kind={v.get('sig', {}).get('kind')} :: {str(v.get('msg'))[:300]}")
                 written += 1
-        rc = 1 if rc == 0 else rc
+        rc = 1  # reproduced violations outrank harness self-check complaints
     summary = {k: cov[k] for k in ("evaluations", "distinct_nontrivial", "states", "transitions",
                                    "traces_validated_against_impl") if k in cov}
     print(f"[{prop}] tier={tier} seed={seed} wall={wall:.1f}s {summary} "
